@@ -240,3 +240,63 @@ Proof.
     - apply orb_false_iff in Hf. destruct Hf as [_ Hl]. exact (IH k Hl Hn). }
   exact (G ps i E Hi).
 Qed.
+
+(* ---------- C17: outstanding block requests per peer ---------- *)
+(* RequestBlocks(q) never lets the set of in-flight requests grow beyond q (when it was within q);
+   received blocks, rejects and chokes only shrink the set *)
+Lemma req_blocks_pending : forall rem d q sent d' sent', req_blocks d rem q sent = (d', sent') ->
+  zlen (pd_pending d') <= Z.max q (zlen (pd_pending d)).
+Proof.
+  induction rem as [|b r IH]; intros d q sent d' sent' H; cbn [req_blocks] in H.
+  - inversion H; subst. lia.
+  - destruct (zlen (pd_pending d) >=? q) eqn:Eq; [inversion H; subst; lia|].
+    apply IH in H. cbn [pd_pending] in H. destruct (zmem b (pd_pending d)) eqn:Em; [lia|].
+    rewrite zlen_app in H. change (zlen [b]) with 1 in H. lia.
+Qed.
+
+Theorem request_blocks_bounded d q d' sent : request_blocks d q = (d', sent) ->
+  zlen (pd_pending d') <= Z.max q (zlen (pd_pending d)).
+Proof. unfold request_blocks. apply req_blocks_pending. Qed.
+
+Lemma zlen_zrem_le x l : zlen (zrem x l) <= zlen l.
+Proof.
+  unfold zrem, zlen. induction l as [|y r IH]; cbn [filter length]; [lia|]. destruct (negb (y =? x)); cbn [length]; lia.
+Qed.
+
+Theorem got_blk_pending_shrinks d begin data : zlen (pd_pending (fst (got_blk d begin data))) <= zlen (pd_pending d).
+Proof.
+  unfold got_blk. destruct (negb (find_block d begin (zlen data))); [cbn; lia|]. destruct (zmem begin (pd_done d)); [cbn; lia|].
+  destruct (zmem begin (pd_pending d)); cbn [fst pd_pending]; apply zlen_zrem_le.
+Qed.
+
+Theorem choked_pending_shrinks d : zlen (pd_pending (choked d)) <= zlen (pd_pending d).
+Proof. unfold choked. destruct (pd_af d || pd_fast d); cbn [pd_pending]; [lia|]. unfold zlen. cbn. lia. Qed.
+
+Theorem rejected_pending_shrinks d begin len : zlen (pd_pending (fst (rejected d begin len))) <= zlen (pd_pending d).
+Proof. unfold rejected. destruct (find_block d begin len); cbn [fst pd_pending]; [apply zlen_zrem_le|lia]. Qed.
+
+(* every history of the downloader's operations, with any queue lengths q_i <= Q: at most Q requests in flight *)
+Inductive pdop := PReq (q : Z) | PBlock (begin : Z) (data : list Z) | PChoked | PRejected (begin len : Z).
+Definition pd_apply (d : pdl) (o : pdop) : pdl :=
+  match o with
+  | PReq q => fst (request_blocks d q)
+  | PBlock b data => fst (got_blk d b data)
+  | PChoked => choked d
+  | PRejected b l => fst (rejected d b l)
+  end.
+
+Theorem pipeline_bounded Q blocks plen af fast ops : 0 <= Q ->
+  Forall (fun o => match o with PReq q => q <= Q | _ => True end) ops ->
+  zlen (pd_pending (fold_left pd_apply ops (pdl_new blocks plen af fast))) <= Q.
+Proof.
+  intros HQ Hops.
+  assert (G : forall ops d, zlen (pd_pending d) <= Q -> Forall (fun o => match o with PReq q => q <= Q | _ => True end) ops ->
+                            zlen (pd_pending (fold_left pd_apply ops d)) <= Q).
+  { induction ops0 as [|o r IH]; intros d Hd Hf; cbn [fold_left]; [exact Hd|]. inversion Hf; subst. apply IH; [|assumption].
+    destruct o as [q|b data| |b l]; cbn [pd_apply].
+    - destruct (request_blocks d q) as [d' sent] eqn:E. cbn [fst]. pose proof (request_blocks_bounded d q d' sent E). lia.
+    - pose proof (got_blk_pending_shrinks d b data). lia.
+    - pose proof (choked_pending_shrinks d). lia.
+    - pose proof (rejected_pending_shrinks d b l). lia. }
+  apply G; [|exact Hops]. unfold pdl_new, zlen. cbn. lia.
+Qed.
